@@ -173,6 +173,9 @@ def names_family(run, tier, fam, base_cfg):
 
 def c11(run, tier):
     names_family(run, tier, "C11", "MC_Names.cfg")
+    # the bindings must also reach the sub-queries of Unmarshal (struct tags using the prefix, the variable and the user functions of the call)
+    rep = run.tlc_gen_replay("MC_Unmarshal", run.cfg("MC_Unmarshal.cfg", {}, "gen.unmarshal.cfg"), "unmarshal-bindings", timeout=600)
+    run.absorb(rep, VALUE_ASPECTS)
     for i in range(Q(tier, 1, 4)):
         run.trace_validate(["-fam", "bindings", "-n", str(Q(tier, 2500, 20000)), "-sub", str(i)], "bindings%d" % i)
 
